@@ -168,7 +168,7 @@ def make(game: str, variant: str):
     if game == "sm" and variant == "extras":
         variant_for_meta = "plain"
     m = charts.make_map(game, notes, bpms, svs if game in ("osu", "qua") else (), meta=game_extras(game, variant))
-    if game == "qua" and variant in ("plain", "single") and len(m.hits):
+    if game == "qua" and variant in ("plain", "single", "gaps", "unsorted") and len(m.hits):
         # key sounds as a real .qua carries them: a list of {Sample, Volume} mappings (nested mutable state)
         m.hits.df.at[m.hits.df.index[0], "keysounds"] = [dict(Sample=1, Volume=80)]
         if len(m.holds):
